@@ -1,7 +1,8 @@
 (* C10 property theorems. Nothing but statements closed by `exact`, Print Assumptions, examples. *)
 From Coq Require Import List Ascii String Bool Arith NArith.
 From GoProbe.Base Require Import CorrLib.
-From GoProbe.C10 Require Import Model ProofsTok ProofsSan.
+From Coq Require Import Permutation.
+From GoProbe.C10 Require Import Model ProofsTok ProofsSan ProofsSpell1 ProofsSpell6.
 Import ListNotations.
 
 (* For every text and every iteration order of the conversion map, preparing the condition ends in
@@ -50,12 +51,74 @@ Theorem c10_sanitize_quiet_identity : forall order s, quiet s = true -> sanitize
 Proof. exact sanitize_quiet. Qed.
 Print Assumptions c10_sanitize_quiet_identity.
 
+(* Tree level: the canonical string is tokenized without error and parses to the same verdict and the
+   same tree as the original (sanitized) text; if the sanitizer leaves it alone, preparing it again
+   gives the same verdict/tree as preparing the original text. *)
+Theorem c10_canonical_tree : forall order s,
+  snd (tokenize_go (canon order s)) = true /\
+  parse (fst (tokenize_go (canon order s))) = parse (fst (tokenize_go (sanitize order s))).
+Proof. exact canonical_tree. Qed.
+Print Assumptions c10_canonical_tree.
+
+Theorem c10_canonical_tree_prepare : forall order order' s,
+  snd (tokenize_go (sanitize order s)) = true -> sanitize order' (canon order s) = canon order s ->
+  fst (prepare order' (canon order s)) = fst (prepare order s).
+Proof. exact canonical_tree_prepare. Qed.
+Print Assumptions c10_canonical_tree_prepare.
+
+(* The token-level side condition the check uses (no token is an operator word; no token contains
+   * + { } [ ], form feed, upper case or non-ASCII bytes) implies `quiet`; hence idempotence for it. *)
+Theorem c10_plain_quiet : forall ts,
+  forallb wf_tok ts = true -> plain_toks ts = true -> quiet (join ts) = true.
+Proof. exact ProofsSpell3.plain_quiet. Qed.
+Print Assumptions c10_plain_quiet.
+
+Theorem c10_idempotent_plain : forall order order' s,
+  plain_toks (fst (tokenize_go (sanitize order s))) = true ->
+  canon order' (canon order s) = canon order s /\
+  fst (prepare order' (canon order s)) = parse (fst (tokenize_go (sanitize order s))).
+Proof. exact idempotent_plain. Qed.
+Print Assumptions c10_idempotent_plain.
+
+(* ONE word operator between canonical neighbours, EVERY order of the rule groups.
+   w/o: any of the 27 binary word spellings of the table (and or eq -eq equals neq -neq ne -ne le -le leq
+   -leq ge -ge geq -geq g -g gt -gt greater l -l lt -lt less; `table_words_eq`). Neighbours: non-empty
+   token lists in canonical form (tokens joined by single blanks) whose tokens are not operator words
+   and contain none of * + { } [ ] \f, upper case, non-ASCII; the byte before / behind the operator
+   is not & | = (else the symbol form itself would read && || ==). White space: any non-empty run of
+   blank \t \n \f \r on either side. Upper-case input is covered by the hypothesis on `lower s`.
+   The sanitized text IS the symbol form; the symbol form is a fixed point of the sanitizer. *)
+Theorem c10_spellings_partial : forall order s w o ta tb ws1 ws2,
+  Permutation order all_groups -> word_spelling w o ->
+  neighbour ta -> neighbour tb -> blanks ws1 -> blanks ws2 ->
+  amp_bar_eq (last (join ta) " "%char) = false -> amp_bar_eq (hd " "%char (join tb)) = false ->
+  lower s = join ta ++ ws1 ++ w ++ ws2 ++ join tb ->
+  sanitize order s = join ta ++ o ++ join tb /\
+  tokenize (sanitize order s) = tokenize (sanitize order (join ta ++ o ++ join tb)).
+Proof. exact spellings_word. Qed.
+Print Assumptions c10_spellings_partial.
+
+(* the unary word operator "not" between such neighbours (so not directly behind a word operator,
+   and not at the very start of the text) *)
+Theorem c10_spellings_partial_not : forall order s ta tb ws1 ws2,
+  Permutation order all_groups ->
+  neighbour ta -> neighbour tb -> blanks ws1 -> blanks ws2 ->
+  amp_bar_eq (last (join ta) " "%char) = false -> amp_bar_eq (hd " "%char (join tb)) = false ->
+  lower s = join ta ++ ws1 ++ B "not" ++ ws2 ++ join tb ->
+  sanitize order s = join ta ++ B "!" ++ join tb /\
+  tokenize (sanitize order s) = tokenize (sanitize order (join ta ++ B "!" ++ join tb)).
+Proof. exact spellings_not. Qed.
+Print Assumptions c10_spellings_partial_not.
+
 (* NOT DISCHARGED (full statement; see prop.json not_discharged and NOTES.md):
    c10_spellings : forall order t sp ws, Permutation order all_groups -> valid_spelling sp -> valid_ws ws ->
      tokenize (sanitize order (render sp ws t)) = tokenize (render symbols tight t).
-   Covered by: spellings_pairs_test (exhaustive evaluation, ProofsSan.v: every documented spelling,
-   alone and followed by every form of "not", 24 orders) and by the correspondence run (grammar
-   generated trees, random spellings / white space / orders, the real sanitizer 24 times each). *)
+   What the two partial theorems do not reach: several word operators in one text (the induction over
+   the rendered tree), "not" at the start of the text / directly behind and|or (the up-front rules of
+   the fix) / directly followed by ( [ {, neighbours written with [ ] { } * + && || == ===.
+   Those are covered by spellings_pairs_test (exhaustive evaluation, ProofsSan.v) and by the
+   correspondence run (grammar generated trees, random spellings / white space / orders, the real
+   sanitizer 24 times each). *)
 
 (* non-vacuity *)
 Example c10_example_prepare :
@@ -79,3 +142,20 @@ Example c10_example_rejected :
   fst (prepare all_groups (B "dport = 80 &")) = Rejected 4 /\ parse [] = Empty /\
   (exists p, fst (prepare all_groups (List.concat (List.repeat (B "(") 600))) = Rejected p).
 Proof. split; [vm_compute; reflexivity | split; [reflexivity | eexists; vm_compute; reflexivity]]. Qed.
+
+Example c10_example_spelling :
+  let ta := map B ["dport"; "="; "80"]%string in let tb := map B ["("; "proto"; "!="; "tcp"; ")"]%string in
+  neighbour ta /\ neighbour tb /\ word_spelling (B "and") (B "&") /\ word_spelling (B "-geq") (B ">=") /\
+  blanks (B " ") /\ blanks [" "; "009"; "010"]%char /\
+  amp_bar_eq (last (join ta) " "%char) = false /\ amp_bar_eq (hd " "%char (join tb)) = false /\
+  Permutation (rev all_groups) all_groups /\
+  sanitize (rev all_groups) (B "dport = 80 AND ( proto != tcp )") = B "dport = 80&( proto != tcp )".
+Proof.
+  cbv zeta. repeat split; try discriminate; try (vm_compute; reflexivity); try (vm_compute; tauto).
+  apply Permutation_sym, Permutation_rev.
+Qed.
+
+Example c10_example_plain :
+  plain_toks (fst (tokenize_go (sanitize all_groups (B "dport eq 80 AND not proto = TCP")))) = true /\
+  plain_toks (fst (tokenize_go (sanitize all_groups (B "sip=l&dport=80")))) = false.
+Proof. split; vm_compute; reflexivity. Qed.
